@@ -9,6 +9,7 @@ import (
 	"sync/atomic"
 
 	"github.com/jdillenkofer/pithos/internal/ioutils"
+	"github.com/jdillenkofer/pithos/internal/verifhook"
 )
 
 // ErrWriteInReadOnlyTransaction is returned by BeginTx when a writable
@@ -106,11 +107,23 @@ func (t *TxController) Commit(ctx context.Context) error {
 	if t.finalized {
 		return nil
 	}
+	if hookErr := verifhook.HitCtx(ctx, "tx.commit.enter"); hookErr != nil {
+		_ = t.Rollback(ctx)
+		return hookErr
+	}
 	for _, fn := range t.onPreCommit {
+		if hookErr := verifhook.HitCtx(ctx, "tx.commit.precommit"); hookErr != nil {
+			_ = t.Rollback(ctx)
+			return hookErr
+		}
 		if hookErr := fn(ctx); hookErr != nil {
 			_ = t.Rollback(ctx)
 			return hookErr
 		}
+	}
+	if hookErr := verifhook.HitCtx(ctx, "tx.commit.before-db"); hookErr != nil {
+		_ = t.Rollback(ctx)
+		return hookErr
 	}
 	err := t.tx.Commit()
 	if err != nil {
@@ -118,11 +131,14 @@ func (t *TxController) Commit(ctx context.Context) error {
 		return err
 	}
 	t.finalized = true
+	_ = verifhook.HitCtx(ctx, "tx.commit.after-db")
 	for _, fn := range t.onAfterCommit {
+		_ = verifhook.HitCtx(ctx, "tx.commit.aftercommit")
 		if hookErr := fn(ctx); hookErr != nil {
 			return hookErr
 		}
 	}
+	_ = verifhook.HitCtx(ctx, "tx.commit.done")
 	return nil
 }
 
@@ -135,6 +151,7 @@ func (t *TxController) Rollback(ctx context.Context) error {
 		return err
 	}
 	t.finalized = true
+	_ = verifhook.HitCtx(ctx, "tx.rollback.enter")
 	for _, fn := range t.onRollback {
 		if hookErr := fn(ctx); hookErr != nil && err == nil {
 			err = hookErr
@@ -207,6 +224,7 @@ func WithTxReadClosers(ctx context.Context, db Database, opts *sql.TxOptions, fn
 	for i := range readers {
 		readers[i] = ioutils.NewReadCloserWithCloseHook(readers[i], func() error {
 			if atomic.AddInt64(&remaining, -1) == 0 {
+				_ = verifhook.HitCtx(ctx, "tx.readclosers.release")
 				return tx.Rollback(ctx)
 			}
 			return nil
